@@ -66,6 +66,11 @@ TARGETED = [
     [("scopeset", "x", 5), ("scopeget", "x")], [("scopeget", "y")], [("scopeget", "v")], [("scopeget", "a")],
     [("scopeget", "lib")], [("scopedel", "x"), ("scopeget", "x")], [("scopedel", "y"), ("scopeget", "y")],
     [("scopeset", "y", 5), ("scopedel", "y"), ("scopeget", "y")],
+    [("set", [], "k", 5), ("get", [], "k")], [("set", ["a"], "k", 5), ("get", ["a"], "k")],
+    [("set", [], "k", 5), ("set", [], "j", 6), ("del", [], "k")],
+    [("get", ["services", "nginx", "virtualHosts"], "b")], [("get", ["services", "nginx", "virtualHosts"], "a")],
+    [("set", ["services", "nginx", "virtualHosts"], "b", 5), ("get", ["services", "nginx", "virtualHosts"], "b")],
+    [("get", ["a", "b", "c"], "e")], [("set", ["a", "b", "c"], "e", 5)], [("del", ["a", "b", "c"], "e")], [("get", ["a", "b"], "f")],
 ]
 
 
@@ -77,6 +82,10 @@ def gen_history(ctx, text):
         r = rng.random()
         depth = 0 if rng.random() < 0.7 else 1
         keys = [rng.choice(["a", "b", "c", "x"])] if depth else []
+        if "virtualHosts" in text and rng.random() < 0.5:
+            keys = ["services", "nginx", "virtualHosts"][: rng.randint(1, 3)]
+        elif "a.b.c.d" in text and rng.random() < 0.5:
+            keys = ["a", "b", "c"][: rng.randint(1, 3)]
         k = rng.choice(KEYS)
         if r < 0.25:
             ops.append(("get", keys, k))
@@ -335,6 +344,13 @@ def stream(ctx):
     for body in ["{ foo = 1; }", "{\n  foo = 1;\n  a = { k = 1; };\n}", "{ }"]:
         for rep in range(6 if ctx.quick else 60):
             texts.append((f"let\n  body = {body};\nin\nbody", {"wrapper": "ident-body"}))
+    # sets without bindings but with something between the braces; deep dotted families
+    for t in ["{\n  # TODO\n}\n", "{\n\n}\n", "{\n  a = {\n    # TODO\n  };\n  b = 1;\n}\n", "{ pkgs }:\n{\n  # nothing yet\n}\n",
+              "{\n  a = {\n  };\n  b = [\n    # none\n  ];\n}\n",
+              "{\n  services.nginx.virtualHosts.a = 1;\n  services.nginx.virtualHosts.b = 2;\n  x = 3;\n}\n",
+              "{\n  a.b.c.d = 1;\n  a.b.c.e = 2;\n  a.b.f = 3;\n}\n"]:
+        for rep in range(4 if ctx.quick else 40):
+            texts.append((t, {"wrapper": "special"}))
     for _ in range(2500 if ctx.quick else 30000):
         t, info = docs.gen_doc(ctx.rng)
         if info.get("class") == "editable":
